@@ -57,7 +57,33 @@ def check(chk):
     one_outcome('ResponseFuture._execute_after_prepare', allow_zero_if=lambda facts: facts.knows('self._final_exception') is True)
     one_outcome('ResponseFuture._retry_task', allow_zero_if=lambda facts: facts.knows('self._final_exception') is True)
     one_outcome('ResponseFuture._retry', allow_zero_if=lambda facts: facts.knows('self._final_exception') is True)
-    one_outcome('ResponseFuture._reprepare')
+    one_outcome('ResponseFuture._reprepare', allow_zero_if=lambda facts: facts.knows('self._final_exception') is True)
+    # ---- deferred continuations: a task that was queued (executor, timer) and sends must first look whether the future is already complete
+    chk.rule('C14.deferred', 'a ResponseFuture method handed to session.submit / create_timer that sends a request does so only under `not self._final_exception` / `not self._event.is_set()`')
+    rcls = cl.cls('ResponseFuture')
+    deferred = set()
+    for n in ast.walk(rcls):
+        if isinstance(n, ast.Call) and (src(n.func).endswith('session.submit') or src(n.func) == 'partial' and n.args and src(n.args[0]).endswith('session.submit') or src(n.func).endswith('create_timer')):
+            for a in n.args:
+                if isinstance(a, ast.Attribute) and isinstance(a.value, ast.Name) and a.value.id == 'self' and cl.has('ResponseFuture.%s' % a.attr):
+                    deferred.add(a.attr)
+                if isinstance(a, ast.Call) and src(a.func) == 'partial' and a.args and isinstance(a.args[0], ast.Attribute) and src(a.args[0].value) == 'self' and cl.has('ResponseFuture.%s' % a.args[0].attr):
+                    deferred.add(a.args[0].attr)
+    nd = 0
+    for name in sorted(deferred):
+        f = cl.func('ResponseFuture.%s' % name)
+        g = CFG(f)
+        fl = Flow(g, 0, lambda n_, c: c)
+        sends = [n_ for n_ in g.stmt_nodes() if n_.kind in ('stmt', 'test', 'return') and n_.ast is not None and
+                 any(isinstance(x, ast.Call) and src(x.func) in ('self._query', 'self.send_request') for x in walk_no_nested(n_.ast))]
+        if not sends:
+            continue
+        nd += 1
+        bad = [src(n_.ast)[:60] for n_ in sends if not all(fa.knows('self._final_exception') is False or fa.knows('self._event.is_set()') is False for fa, _ in fl.at(n_))]
+        chk.judge(not bad, 'C14.deferred', f, '%s (queued continuation): sends only after testing that the future is still pending' % name,
+                  '%s can run after the future was completed (e.g. by the client timeout) and still sends (%s): the late answer then delivers a second outcome' % (name, '; '.join(bad)))
+    if nd < 3:
+        raise AnalysisError('deferred sending continuations: expected at least 3 (_retry_task, _reprepare, _on_speculative_execute), found %d of %s' % (nd, sorted(deferred)))
     # _on_timeout: final exception or re-arm (PYTHON-853 short-timeout race)
     ot = cl.func('ResponseFuture._on_timeout')
     g, fl = outcome_flow(ot)
